@@ -68,6 +68,16 @@ class Exec:
                 w.loop._one()
         elif op == 'silence':
             w.silent = True
+        elif op == 'write_fault':
+            # a half-dead connection: from now on every write of this endpoint fails, while nothing arrives any more either (no EOF, no reset)
+            ep = a[0]
+            if ep not in w.dirs or w.dirs[ep].cut is not None or w.dirs[ep].broken_writer:
+                return self._skip()
+            w.dirs[ep].broken_writer = True
+            w.dirs[ep].gate.open()
+            w.silent = True
+            w.rec.log(ep, 'write_fault')
+            w.settle()
         elif op == 'set_handler':
             # the application installs (another instance of) its handler on the live endpoint - public API set_handler_using_factory
             ep = a[0]
